@@ -401,6 +401,12 @@ func Run(o *core.Options) int {
 		r.Set("max_tuples_flat_sweep", kf)
 		x.sweep("flat", flat, ref.FlatUniverse(), kf, 1, 0)
 	}
+	// n-ary union / intersection nodes (ref.NaryFamily): operand order and operand-set sizes over three documents
+	{
+		nary := e2.ValidModels(ref.NaryFamily())
+		r.Set("nary_family_models", len(nary))
+		x.sweep("nary", nary, ref.NaryUniverse(), 4, 1, 0)
+	}
 	if stride <= len(reps) {
 		x.sweep("main", main, ref.DefaultUniverse(), 2, 1, 0)
 	}
